@@ -553,10 +553,14 @@ def alias_phase(chk, rng, n):
         for l in lines:
             out.append(l)
             if l == "~ hk = 0":
-                out += ["~ ys = xs", "~ box = {'items': xs, 'table': d}", "~ d2 = d", "~ pair = [xs, xs]"]
+                out += ["~ ys = xs", "~ box = {'items': xs, 'table': d}", "~ d2 = d", "~ pair = [xs, xs]",
+                        # an object of a Python class shared by two variables, and a bound method of it kept in a variable
+                        "~ bag = Inventory()", "~ holder = {'inv': bag}", "~ pick = bag.add"]
             elif l.startswith("[") and l.endswith("]") and not l.startswith("[H"):
-                out.append("Alias {ys} {box['items']} {box['table']} {d2} {pair}")
-        src = "\n".join(out)
+                if r.random() < 0.5:
+                    out.append("~ pick({'name': 'k', 'weight': 1})")
+                out.append("Alias {ys} {box['items']} {box['table']} {d2} {pair} {len(bag.items)} {len(holder['inv'].items)}")
+        src = "from bardic.stdlib.inventory import Inventory\n\n" + "\n".join(out)
         try:
             story = R.compile_story(src)
         except Exception:
@@ -577,6 +581,8 @@ def alias_phase(chk, rng, n):
                 break
             stats["compared_steps"] += 1
             va, vb = strip_flags(ra[k]["view"]), strip_flags(rb[kb]["view"])
+            for vv in (va, vb):        # class instances compare by identity: what they hold is shown in the text instead
+                vv["vars"] = {kk: x for kk, x in vv["vars"].items() if kk not in ("bag", "holder", "pick")}
             # record j+1 is choice j itself: in B the same position is the last inserted operation (views only)
             if (k > j + 1 and ra[k]["obs"] != rb[kb]["obs"]) or va != vb:
                 diff = [kk for kk in va if va[kk] != vb[kk]]
@@ -617,12 +623,30 @@ def call_shape_phase(chk, rng, n):
             src = f":: Start\nStart text\n{body}\n\n:: T({sig})\nT text {{{names[0]}}}\n+ [Back] -> Start\n"
             ops = [("choose", 0)]
         stats["sites"][site] = stats["sites"].get(site, 0) + 1
+        # Python's own call rule for this signature and this call shape (independent of the compiler's validator)
+        reason = None
+        if npos > k:
+            reason = "surplus-positional"
+        elif any(nm not in names for nm in kws):
+            reason = "unknown-keyword"
+        elif any(nm in names[:npos] for nm in kws):
+            reason = "positional-and-keyword"
+        elif any(i >= npos and nm not in kws for i, nm in enumerate(names[:nreq])):
+            reason = "missing-required"
         try:
             story = R.compile_story(src)
         except (SyntaxError, ValueError):
             stats["rejected"] += 1
             chk.count(("shape", sig, args, site), False)
+            if reason is None:
+                chk.report(f"valid-call-rejected-by-compiler:site={site}",
+                           f"'{call}' is a valid Python call of T({sig}) but the story does not compile",
+                           {"story_source": src, "signature": sig, "args": args})
             continue
+        if reason is not None:
+            chk.report(f"invalid-call-accepted-by-compiler:{reason}:site={site}",
+                       f"'{call}' is not a valid call of T({sig}) by Python's rules ({reason}) but the story compiles",
+                       {"story_source": src, "signature": sig, "args": args})
         stats["compiled"] += 1
         recs, _ = R.run_history(story, ops)
         last = recs[-1]
